@@ -98,6 +98,8 @@ func (w *World) oracleRelayer(bi *BlockInfo) {
 			if !voted {
 				if reg, isReg := mm.(*relayertypes.MsgNewVoterRequest); isReg && ok {
 					w.checkRegistration(bi, reg, prev)
+				} else if isReg && len(msgs) == 1 {
+					w.checkRejectedRegistration(bi, i, reg, prev)
 				}
 				continue
 			}
@@ -322,7 +324,15 @@ func (w *World) checkRegistration(bi *BlockInfo, reg *relayertypes.MsgNewVoterRe
 		w.violate("C16", "registration-of-unknown-origin", "reg-unknown", "height %d: a registration for %s was accepted that no actor produced", b.Height, addr)
 		return
 	}
-	if !t.Genuine || t.Member != addr {
+	rec := prev.Voters[addr]
+	if cr := w.M.Cur.Voters[addr]; rec == nil && cr != nil {
+		// added by this very block's message and registered at once: the record no longer shows the
+		// key hash it was added with
+		c := *cr
+		c.VoteKey = t.KeyHash
+		rec = &c
+	}
+	if !t.genuineAt(prev.Relayer.Relayer, rec) || t.Member != addr {
 		w.violate("C16", "forged-registration-accepted", "reg-forged-"+t.Variant, "height %d: registration variant %q for %s was accepted", b.Height, t.Variant, addr)
 	}
 	if at := w.M.Rel.Registered[addr]; at != 0 {
@@ -335,6 +345,28 @@ func (w *World) checkRegistration(bi *BlockInfo, reg *relayertypes.MsgNewVoterRe
 		}
 	}
 	w.M.Rel.Registered[addr] = b.Height
+}
+
+// checkRejectedRegistration: a registration that is exactly what the honest procedure produces for
+// the state it executes on, for a member awaiting registration, must be accepted (otherwise a
+// check that refuses every newcomer would look sound).
+func (w *World) checkRejectedRegistration(bi *BlockInfo, txi int, reg *relayertypes.MsgNewVoterRequest, prev *Snap) {
+	t := w.rel().RegTruth[txKeyOf(reg)]
+	r := bi.TxRes[txi]
+	anteRefusal := r.Codespace == "sdk" && !strings.Contains(r.Log, "failed to execute message") &&
+		(r.Code == 2 || r.Code == 4 || r.Code == 8 || r.Code == 12 || r.Code == 21 || r.Code == 30 || r.Code == 32)
+	if t == nil || anteRefusal {
+		return
+	}
+	rec := prev.Voters[t.Member]
+	if rec == nil || rec.Status != relayertypes.VOTER_STATUS_PENDING || !t.genuineAt(prev.Relayer.Relayer, rec) {
+		return
+	}
+	if w.M.Rel.Registered[t.Member] == bi.B.Height {
+		return // registered by an earlier transaction of this block (a resubmission)
+	}
+	w.probe("honest-registration-rejected-in-context")
+	w.violate("C16", "legit-registration-rejected", "reg-rejected", "height %d tx %d: the genuine registration of pending member %s (epoch %d) was rejected: %s", bi.B.Height, txi, t.Member, t.Epoch, r.Log)
 }
 
 func (w *World) finalRelayerChecks() {}
